@@ -6,6 +6,8 @@ import time
 
 import z3
 
+from pyvc import seqs as Q
+
 from . import extract
 from .core import (CLASSES, CONSTS, NONE, SeqV, V, K, IntS, BoolS, Spec, VAL, Sym, State, Obligation, ExcInfo,
                    S_none, S_val, Unsupported, fresh, pyeq, typeof, sub)
@@ -138,7 +140,7 @@ class Executor(ExprMixin, CallMixin, ContractMixin, StmtMixin):
         env = dict(st.old_env)
         c = self.contract
         if self.kernel.is_generator:
-            y = st.yielded or Sym("seq", z3.Empty(SeqV), Spec("seq", VAL))
+            y = st.yielded or Sym("seq", Q.Empty(), Spec("seq", VAL))
             rs = c.result if c.result.kind == "seq" else Spec("seq", c.result)
             y = Sym("seq", y.t, rs)
             env["yielded"] = y
@@ -195,6 +197,7 @@ def global_axioms(used_classes, reg):
     ax = CLASSES.axioms(set(used_classes) | {"object", "int", "bool", "str", "list", "tuple", "dict", "NoneType"})
     ax += CONSTS.axioms()
     a, b = z3.Consts("pa pb", V)
+    ax += Q.global_axioms()
     ax.append(z3.ForAll([a], pyeq(a, a)))
     ax.append(z3.ForAll([a, b], pyeq(a, b) == pyeq(b, a)))
     for fn in getattr(reg, "axiom_hooks", []):
